@@ -6,11 +6,12 @@ import Optyx.Drive.Analysis
 import Optyx.Drive.Jac
 import Optyx.Drive.State
 import Optyx.Drive.Api
+import Optyx.Drive.Solve
 
 namespace Optyx.Drive
 
 def handlers : List (String → List Sexp → Option String) :=
-  [handleCore, LPNs.handleLP, LPNs.handleScipy, AnalysisNs.handleAnalysis, JacNs.handleJac, handleState, handleApi]
+  [handleCore, LPNs.handleLP, LPNs.handleScipy, AnalysisNs.handleAnalysis, JacNs.handleJac, handleState, handleApi, handleSolve]
 
 def dispatch (line : String) : String :=
   match Sexp.parseLine line with
